@@ -851,6 +851,10 @@ func (c *Ctx) invoke(s *State, fr *Frame, x *ssa.Call, com *ssa.CallCommon, args
 		c.assumptions["methods of "+typeName(it)+" are effect-free on modelled state"] = true
 		return c.freshResults(s, "r."+mname, sig.Results())
 	}
+	if n := namedOf(it); n != nil && n.Obj().Pkg() == nil {
+		// universe type: error.Error() — a pure string rendering
+		return c.freshResults(s, "r."+mname, sig.Results())
+	}
 	if n := namedOf(it); n != nil && n.Obj().Pkg() != nil && !strings.HasPrefix(n.Obj().Pkg().Path(), c.eng.modPath) {
 		c.assumptions["methods of out-of-module interface "+typeName(it)+" do not modify modelled state"] = true
 		return c.freshResults(s, "r."+mname, sig.Results())
